@@ -169,6 +169,8 @@ func TestCheck(t *testing.T) {
 		if idx%6 == 5 {
 			componentCase(ctx, rep, rng)
 			sharedExecutorCase(ctx, rep, rng.Sub("shared"))
+			toolsCase(ctx, rep, rng.Sub("tools0"))
+			toolsCase(ctx, rep, rng.Sub("tools1"))
 			return
 		}
 		mode := gspec.Mode(idx % 3)
